@@ -412,13 +412,15 @@ package swap
 //@ requires @C12 premium-limit: swap.SwapInRequest != nil ==> swap.SwapInAgreement.Premium <= swap.SwapInRequest.PremiumLimit
 //@ requires @C08 keys: swapParams.TakerPubkey == swap.GetTakerPubkey() && swapParams.MakerPubkey == swap.GetMakerPubkey()
 //@ requires @C08,C02 csv: (swap.GetChain() == btc_chain ==> swapParams.CSV == 1008) && ((swap.GetChain() == l_btc_chain && swap.GetProtocolVersion() == 7) ==> swapParams.CSV == 10080) && ((swap.GetChain() == l_btc_chain && swap.GetProtocolVersion() == 6) ==> swapParams.CSV == 60)
-//@ ensures result5 == nil ==> (ghost.opened == old(ghost.opened) + 1 && ghost.openTxId == result2 && ghost.openVout == result4)
+//@ ensures result5 == nil ==> (ghost.opened == old(ghost.opened) + 1 && ghost.openTxId == result2 && ghost.openVout == result4 && ghost.lockedForPreimage == ghost.invPreimage)
 //@ ensures result5 != nil ==> ghost.opened == old(ghost.opened)
-//@ assigns ghost.opened, ghost.openTxId, ghost.openVout, swapParams.OpeningAddress
+//@ assigns ghost.opened, ghost.openTxId, ghost.openVout, ghost.lockedForPreimage, swapParams.OpeningAddress
 
 //@ interface LightningClient.GetPayreq
 //@ ensures result1 == nil ==> (uf("payreqMsat", uint64(0), result0) == msatAmount && uf("payreqCltv", int64(0), result0) == int64(expiryCltv) && uf("payreqExpiry", uint64(0), result0) == expirySeconds)
-//@ assigns nothing
+// the node builds the invoice for the preimage it is given (C08: the hash locked in the output is that preimage's)
+//@ ensures result1 == nil ==> (uf("payreqPreimage", "", result0) == preimage && ghost.invPreimage == preimage)
+//@ assigns ghost.invPreimage
 
 //@ interface TxWatcher.AddWaitForCsvTx
 //@ requires @C07,C08 output: txID == swap.OpeningTxBroadcasted.TxId && vout == swap.OpeningTxBroadcasted.ScriptOut
@@ -600,11 +602,13 @@ package swap
 // lockSwap: for an arbitrary key k0 of the map before the call. The channel
 // ids are compared modulo the separator ('x' or ':').
 //@ func (*SwapService).lockSwap
-//@ property C10 C09
+//@ property C10 C09 C26
 //@ forall k0 string
 //@ requires s != nil && fsm != nil && s.activeSwaps != nil
 //@ requires @C09,C10 keyed-by-own-id: swapId == fsm.SwapId.String()
 //@ requires @C07,C10,in:wg lock-before-recover: !ghost.recovered
+// a locally initiated swap (functions with a parameter `peer`) is never started with a quarantined peer
+//@ requires @C26,in:peer,in:initiator not-suspicious: !uf("peerSuspicious", true, peer)
 //@ loop 0 invariant @C10 checked: (visited(k0) && has(s.activeSwaps, k0)) ==> s.activeSwaps[k0].Data.GetScidInBoltFormat() != strings.ReplaceAll(channelId, ":", "x")
 //@ loop 0 invariant @C10,C09 unchanged: has(s.activeSwaps, k0) == old(has(s.activeSwaps, k0)) && s.activeSwaps[k0] == old(s.activeSwaps[k0])
 //@ ensures @C10 one-per-channel: (result == nil && old(has(s.activeSwaps, k0))) ==> old(s.activeSwaps[k0].Data.GetScidInBoltFormat()) != strings.ReplaceAll(channelId, ":", "x")
@@ -864,3 +868,36 @@ package swap
 //@ trusted
 //@ ensures result == smData
 //@ assigns smData.swapServices, smData.States
+
+// ---------------------------------------------------------------------------
+// C08: what the maker announces in opening_tx_broadcasted is what it broadcast.
+// Proved for the broadcast state of both maker tables; the record is frozen
+// afterwards (C07 record-frozen) and the announce state sends the marshalled record.
+// ---------------------------------------------------------------------------
+//@ ghost invPreimage string
+//@ stepinv getSwapInSenderStates BroadcastState @C08 announced-tx: (result == Event_ActionSucceeded && old(swap.OpeningTxBroadcasted) == nil) ==> (swap.OpeningTxBroadcasted != nil && swap.OpeningTxBroadcasted.TxId == ghost.openTxId && swap.OpeningTxBroadcasted.ScriptOut == ghost.openVout && ghost.opened == old(ghost.opened) + 1)
+//@ stepinv getSwapOutReceiverStates BroadcastState @C08 announced-tx: (result == Event_ActionSucceeded && old(swap.OpeningTxBroadcasted) == nil) ==> (swap.OpeningTxBroadcasted != nil && swap.OpeningTxBroadcasted.TxId == ghost.openTxId && swap.OpeningTxBroadcasted.ScriptOut == ghost.openVout && ghost.opened == old(ghost.opened) + 1)
+//@ stepinv getSwapInSenderStates BroadcastState @C08 announced-invoice: (result == Event_ActionSucceeded && old(swap.OpeningTxBroadcasted) == nil) ==> (uf("payreqMsat", uint64(0), swap.OpeningTxBroadcasted.Payreq) == swap.GetClaimAmount()*1000 && (swap.GetChain() == btc_chain ==> (uf("payreqCltv", int64(0), swap.OpeningTxBroadcasted.Payreq) == 503 && uf("payreqExpiry", uint64(0), swap.OpeningTxBroadcasted.Payreq) == 86400)) && (swap.GetChain() == l_btc_chain ==> (uf("payreqCltv", int64(0), swap.OpeningTxBroadcasted.Payreq) == 29 && uf("payreqExpiry", uint64(0), swap.OpeningTxBroadcasted.Payreq) == 3600)))
+//@ stepinv getSwapOutReceiverStates BroadcastState @C08 announced-invoice: (result == Event_ActionSucceeded && old(swap.OpeningTxBroadcasted) == nil) ==> (uf("payreqMsat", uint64(0), swap.OpeningTxBroadcasted.Payreq) == swap.GetClaimAmount()*1000 && (swap.GetChain() == btc_chain ==> (uf("payreqCltv", int64(0), swap.OpeningTxBroadcasted.Payreq) == 503 && uf("payreqExpiry", uint64(0), swap.OpeningTxBroadcasted.Payreq) == 86400)) && (swap.GetChain() == l_btc_chain ==> (uf("payreqCltv", int64(0), swap.OpeningTxBroadcasted.Payreq) == 29 && uf("payreqExpiry", uint64(0), swap.OpeningTxBroadcasted.Payreq) == 3600)))
+//@ ghost lockedForPreimage string
+
+// ---------------------------------------------------------------------------
+// C26 (refusal side): the node does not start a swap with a peer that forced a
+// CSV refund (local initiations; incoming requests are C11's allowlisted step)
+// ---------------------------------------------------------------------------
+//@ func newSwapOutSenderFSM
+//@ trusted
+//@ ensures result != nil && result.SwapId != nil && result.Data != nil && result.Data.PeerNodeId == peerNodeId && result.swapServices == services
+//@ assigns nothing
+//@ func newSwapInSenderFSM
+//@ trusted
+//@ ensures result != nil && result.SwapId != nil && result.Data != nil && result.Data.PeerNodeId == peerNodeId && result.swapServices == services
+//@ assigns nothing
+
+//@ func (*SwapService).SwapOut
+//@ property C26 C10 C16
+//@ requires s != nil && s.swapServices != nil && s.activeSwaps != nil && !ghost.dirty && ghost.msgPeer == "" && !ghost.recovered
+
+//@ func (*SwapService).SwapIn
+//@ property C26 C10 C16
+//@ requires s != nil && s.swapServices != nil && s.activeSwaps != nil && !ghost.dirty && ghost.msgPeer == "" && !ghost.recovered
